@@ -27,7 +27,7 @@ let str_time t = String.concat ":" (List.map (fun z -> string_of_int (int_of_z z
 let canon (inp : idata) =
   List.sort compare (List.concat_map (fun (a, m) -> List.map (fun (src, v) ->
     (int_of_nat a, int_of_nat src, (match v with Some z -> Some (int_of_z z) | None -> None))) m) inp)
-let show_inp l = String.concat ";" (List.map (fun (a, src, v) -> Printf.sprintf "%d<-%d=%s" a src (match v with Some x -> string_of_int x | None -> "N")) l)
+let show_inp l = String.concat ";" (List.map (fun (a, src, v) -> Printf.sprintf "%d<-%d=%s" a src (match v with Some 0 -> "N" | Some x -> string_of_int x | None -> "N")) l)   (* token 0 is the value None produced by a simulator *)
 let str_guard = function GNotWaiting -> "notwaiting" | GInput k -> Printf.sprintf "input:%d" (int_of_nat k)
   | GAsync j -> Printf.sprintf "async:%d" (int_of_nat j) | GLazy j -> Printf.sprintf "lazy:%d" (int_of_nat j)
 let rec pairs_attr tk = match tk.rest with [] -> [] | _ -> let a = next_nat tk in let v = next_z tk in (a, v) :: pairs_attr tk
